@@ -123,7 +123,7 @@ chk("C04",
     "substring scan of the serialized index and tokens for >=6-byte keywords and 8-byte identifiers, pairwise distinct ciphertext entries with one "
     "identifier under every keyword, disjoint entries of two setups of the same (key, database); the index serialized AFTER every keyword has been searched twice is scanned as well.",
     SCHEME_TRUST + " 'No substring occurs' is a probability statement about pseudo-random bytes (chance < 2^-40): outside any theorem.",
-    "Lean 4 proof (structural: IV freshness => distinct ciphertexts, keys are PRF outputs) + recorded-oracle correspondence + byte-level scan of the real index",
+    "Lean 4 proof (structural: IV freshness => distinct ciphertexts; a whole-index classification of every stored byte string for each of the nine schemes) + recorded-oracle correspondence + byte-level scan of the real index, also after searches",
     "6/C04")
 chk("C05",
     "Props/C05.lean: for the counter-chain schemes the multiset of (label length, value length) of the stored table is a function of the "
@@ -149,7 +149,7 @@ chk("C06",
     "sampled by the direct oracle on databases with >= 12 array-resident blocks (one long list, three lists, many lists). Direct oracle (a): permute "
     "the keyword order, all tables sorted, real labels in the same order.",
     SCHEME_TRUST,
-    "Lean 4 proof (sorted storage, order-freeness of label sequences) + recorded-oracle correspondence of stored order and placement + direct oracle",
+    "Lean 4 proof (sorted storage, order-freeness of label sequences; placement = image of the recorded sample / keyed PRP / recorded choices for PiPtr, Pi2Lev, SSE1, DP17) + recorded-oracle correspondence of stored order and placement + direct oracle incl. large tables",
     "6/C06")
 chk("C07",
     "Props/C07.lean: in all nine models Search is a function of (index, token) returning only a result, so any history of searches - any order, "
@@ -225,7 +225,7 @@ chk("C13",
     "after a kill at every k must equal the interpreter's.",
     "Trusted: Lean kernel + 3 standard axioms; the crash model (a process stops between two file-system calls; completed calls are durable; os.replace is "
     "atomic; no torn write inside one call); the interposer sees every mutation; the client theorem covers ONE run of the documented workflow with an opaque configuration token (stated in client_semantic_partial), other client histories are fault enumeration.",
-    "Lean 4 proof over the extracted program (all crash prefixes x all consistent states) + exhaustive crash-point enumeration on the real code",
+    "Lean 4 proof over the extracted programs (server: all crash prefixes x all consistent states; client: kernel evaluation of the budgeted interpreter over every crash point of the documented workflow) + exhaustive crash-point enumeration on the real code incl. the command layer",
     "6/C13")
 chk("C11",
     "The client program is EXTRACTED from frontend/client/** on every run (AST translator -> Generated/ClientIR.lean: the guard/effect list of each "
